@@ -1092,6 +1092,34 @@ def int_test(d, unsigned=False):
     return (a, lo, hi)
 
 
+def byte_predicate_true_set(d, is_subject):
+    """d is a boolean term over one byte (the subterms is_subject accepts): the set of byte
+    values for which it is true, by evaluating the term for each of the 256 values (constant
+    folding only - nothing is run); None when some value does not fold to a boolean"""
+    from symex import fold_consts
+    d = strip(d)
+    out = set()
+
+    def sub(t, v):
+        if not isinstance(t, tuple) or not t or not isinstance(t[0], str):
+            return t
+        if t[0] in ("index", "cindex", "field", "deref", "local", "param", "phi", "call", "after") and is_subject(t):
+            return ("int", v, "u8")
+        if t[0] in ("int", "bytes", "phi"):
+            return t
+        return tuple(sub(x, v) if isinstance(x, tuple) and x and isinstance(x[0], str) else (tuple(sub(y, v) for y in x) if isinstance(x, tuple) and x and isinstance(x[0], tuple) else x) for x in t)
+
+    for v in range(256):
+        r = fold_consts(sub(d, v))
+        if r[0] == "unop" and r[1] == "Not":
+            r = fold_consts(r)
+        if not (r[0] == "int" and len(r) > 2 and r[2] == "bool"):
+            return None
+        if r[1]:
+            out.add(v)
+    return out
+
+
 def strip_int_conversions(t):
     """the integer under value-preserving-or-panicking conversions: `x as uN`,
     `uN::try_from(x).unwrap() / .expect(..)`, `uN::from(x)` / `x.into()` between integers.
